@@ -171,6 +171,7 @@ def check_partner_key_flags(ctx: Check, tree: Tree) -> None:
 
 def run(ctx: Check, tree: Tree) -> None:
     ctx.decided += [
+        'R-PARTNER (display flags): the strings that decide coefficient sharing and the parity flip do not depend on display flags of the name generator',
         "R-DEPENDS: every non-trivial value returned by the parity-prefactor function depends on the node loop variable, and every contribution inside the node loop is guarded by the per-node test `mapped suffix != raw suffix` and takes the parity factor of that node",
         "R-TERM (shared with C02): the canonical expansion used by the equivalence clause is CG(L,0;S,d|J,d) * CG(s1,l1;s2,-l2|S,d) on every path",
         "R-PARTNER: the partner suffix is built with make_parity_partner=True for both daughters and without the parent helicity; _state_to_str negates the helicity; each node suffix is mapped through the partner mapping",
